@@ -100,6 +100,22 @@ def make_weather(spec):
             "Date": dates,
         }
     )
+    # optional irregularities of the rows OUTSIDE the window (positions are row numbers of the padded table)
+    if w.get("drop_lead_rows"):      # remove leading-pad rows lead_from..lead_to (a gap of missing days before the window)
+        a, b = w["drop_lead_rows"]
+        df = df.drop(index=range(a, b)).reset_index(drop=True)
+        lead -= (b - a)
+    if w.get("dup_lead_row") is not None:   # duplicate one leading-pad row
+        k = int(w["dup_lead_row"])
+        df = pd.concat([df.iloc[: k + 1], df.iloc[k:]], ignore_index=True)
+        lead += 1
+    if w.get("drop_trail_rows"):
+        a, b = w["drop_trail_rows"]          # counted from the first trailing-pad row
+        base = lead + n
+        df = df.drop(index=range(base + a, base + b)).reset_index(drop=True)
+    if w.get("keep_labels_from") is not None:   # drop the first k rows WITHOUT resetting the index (labels start at k)
+        k = int(w["keep_labels_from"])
+        df = df[df.index >= k]
     return df
 
 
